@@ -68,6 +68,8 @@ def run_c13(ctx):
     check_obligations(ctx, "C13")
     n, k = (25, 30) if ctx.tier == "quick" else (300, 200)
     texts = multi_programs(ctx.seed, n)
+    # the same programs laid out on ONE line: positions (line, column) of declarations then coincide
+    texts += [" ".join(textgen.tokens_of(t)) for t in texts[: max(3, n // 3)]]
     res = harness.run_ops([{"op": "gen", "text": t, "order": ALL, "fresh": True, "times": k} for t in texts])
     for t, r in zip(texts, res):
         ctx.count("programs")
@@ -190,7 +192,7 @@ def run_c16(ctx):
     so = checks_front.build_so()
     rng = random.Random(ctx.seed * 41 + 9)
     n = 12 if ctx.tier == "quick" else 150
-    texts = list(textgen.FIXED_TEXTS[:12])
+    texts = list(textgen.FIXED_TEXTS[:12]) + list(textgen.FIXED_TEXTS[-7:])
     for _ in range(n):
         t = dslgen.render(dslgen.gen_program(rng, dslgen.Cfg()))
         texts += [t, textgen.relayout(t, rng, comments=0.2), textgen.mutate(t, rng)]
